@@ -296,13 +296,15 @@ fn worker_main(slot: Arc<Slot>) {
                     .map(|d| d.as_secs() as i64)
                     .unwrap_or(-1);
                 let pid = std::process::id();
+                let exe = std::env::current_exe().map(|p| p.file_name().map(|n| n.to_string_lossy().into_owned()).unwrap_or_default()).unwrap_or_default();
+                let argc = std::env::args().count();
                 let t1 = std::time::Instant::now();
                 let t2 = std::time::Instant::now();
                 let elapsed = t2.duration_since(t1).as_nanos();
                 let tty = std::io::IsTerminal::is_terminal(&std::io::stderr());
                 let heap = Box::new(0u8);
                 let addr = &*heap as *const u8 as usize;
-                reply(format!("ok env={env},{env2},{envx} cwd={cwd} open={f} ncpu={ncpu} now={now} pid={pid} elapsed={elapsed} tty={tty} heap={addr:x}\n").as_bytes());
+                reply(format!("ok env={env},{env2},{envx} cwd={cwd} open={f} ncpu={ncpu} now={now} pid={pid} exe={exe} argc={argc} elapsed={elapsed} tty={tty} heap={addr:x}\n").as_bytes());
                 slot.finish();
             },
             Cmd::Frag(seed, n) => {
